@@ -717,6 +717,11 @@ class Symex:
             a = sym(a.name)
         if isinstance(b, Ext):
             b = sym(b.name)
+        if opname in ("in", "not in") and isinstance(a, Obj) and isinstance(b, (list, tuple, set, frozenset)) and \
+                all(isinstance(e, Obj) for e in b):
+            # an abstract record among abstract records: identity, as for ``==`` of two records
+            found = any(e is a for e in b)
+            return found if opname == "in" else not found
         if isinstance(a, Obj) and not (opname in ("is", "is not", "==", "!=") and isinstance(b, Obj)):
             a = a.term
         if isinstance(b, Obj) and not isinstance(a, Obj):
@@ -1469,7 +1474,7 @@ class Symex:
             pass
         if isinstance(o, dict):
             if attr == "items":
-                return list(o.items())
+                return _ItemsView(o.items())
             if attr == "keys":
                 return list(o.keys())
             if attr == "values":
@@ -1572,6 +1577,33 @@ class Symex:
             except Exception:
                 self.unsupported(node, f"str method {attr}")
         self.unsupported(node, f"method {attr} of {type(o).__name__}")
+
+
+class _ItemsView(list):
+    """``dict.items()``: a list for iteration, a set for the order comparisons (``a.items() <= b.items()``)."""
+
+    def _has(self, x):
+        return any(_eq(k, k2) and _eq(v, v2) for k2, v2 in self for k, v in (x,))
+
+    def __le__(self, o):
+        return all(o._has(x) for x in self) if isinstance(o, _ItemsView) else list.__le__(self, o)
+
+    def __ge__(self, o):
+        return o.__le__(self) if isinstance(o, _ItemsView) else list.__ge__(self, o)
+
+    def __lt__(self, o):
+        return self.__le__(o) and not o.__le__(self) if isinstance(o, _ItemsView) else list.__lt__(self, o)
+
+    def __gt__(self, o):
+        return o.__lt__(self) if isinstance(o, _ItemsView) else list.__gt__(self, o)
+
+    def __eq__(self, o):
+        return self.__le__(o) and o.__le__(self) if isinstance(o, _ItemsView) else list.__eq__(self, o)
+
+    def __ne__(self, o):
+        return not self.__eq__(o)
+
+    __hash__ = None
 
 
 class _DefaultDict(dict):
